@@ -317,3 +317,55 @@ impl futures::io::AsyncSeek for AShared {
         Poll::Ready(g.do_seek(p))
     }
 }
+
+// ---------------------------------------------------------------------------------------------
+// fragmenting in-memory readers: what every archive check opens from.  A reader may legally return fewer bytes
+// than asked for (C13); serving the archive checks through such readers makes every property's check sensitive to
+// code that relies on a single read()/write() call transferring everything.
+// ---------------------------------------------------------------------------------------------
+const FRAG_CYCLE: [usize; 6] = [4096, 1, 100_000, 7, 65_536, 3];
+pub struct Frag {
+    cur: std::io::Cursor<Vec<u8>>,
+    calls: usize,
+}
+impl Frag {
+    pub fn new(b: Vec<u8>) -> Self {
+        Frag { cur: std::io::Cursor::new(b), calls: 0 }
+    }
+}
+impl io::Read for Frag {
+    fn read(&mut self, buf: &mut [u8]) -> io::Result<usize> {
+        let k = FRAG_CYCLE[self.calls % FRAG_CYCLE.len()];
+        self.calls += 1;
+        let n = buf.len().min(k);
+        self.cur.read(&mut buf[..n])
+    }
+}
+impl io::Seek for Frag {
+    fn seek(&mut self, pos: io::SeekFrom) -> io::Result<u64> {
+        self.cur.seek(pos)
+    }
+}
+pub struct AFrag {
+    cur: futures::io::Cursor<Vec<u8>>,
+    calls: usize,
+}
+impl AFrag {
+    pub fn new(b: Vec<u8>) -> Self {
+        AFrag { cur: futures::io::Cursor::new(b), calls: 0 }
+    }
+}
+impl futures::io::AsyncRead for AFrag {
+    fn poll_read(self: std::pin::Pin<&mut Self>, cx: &mut std::task::Context<'_>, buf: &mut [u8]) -> std::task::Poll<io::Result<usize>> {
+        let this = self.get_mut();
+        let k = FRAG_CYCLE[this.calls % FRAG_CYCLE.len()];
+        this.calls += 1;
+        let n = buf.len().min(k);
+        std::pin::Pin::new(&mut this.cur).poll_read(cx, &mut buf[..n])
+    }
+}
+impl futures::io::AsyncSeek for AFrag {
+    fn poll_seek(self: std::pin::Pin<&mut Self>, cx: &mut std::task::Context<'_>, pos: io::SeekFrom) -> std::task::Poll<io::Result<u64>> {
+        std::pin::Pin::new(&mut self.get_mut().cur).poll_seek(cx, pos)
+    }
+}
